@@ -401,6 +401,16 @@ def recvorder(rep, cli):
         n += 1
         key = fn["path"].replace("pest_debugger::", "")
         r.instance(key, where(fn["body"]))
+        # the event channel handed to run() has room for one undelivered event: the parser thread that run() stops
+        # finishes with one more send while the controller is inside join()
+        for x in walk(fn["body"]):
+            if kind(x) == "Call" and str(callee(x)).endswith("mpsc::sync_channel") and x["args"]:
+                cap = hirq.lit_value(peel(x["args"][0]))
+                r.instance(key + ":capacity", where(x), str(cap))
+                if cap == 0:
+                    r.violation(key + ":capacity", where(x), "the CLI gives the debugger a rendezvous channel (capacity 0): "
+                                "the final send of the parser thread being stopped blocks until someone receives, but the "
+                                "only receiver is waiting in join(): `r` while parked never returns")
         pe = PathEnum(fn)
         for (ev, out) in pe.paths():
             ri = hirq.index_of(ev, lambda e: e.kind == "call" and str(callee(e.node)).endswith("DebuggerContext::run"))
